@@ -1,6 +1,8 @@
 module github.com/benoitkugler/webrender
 
-go 1.19
+go 1.23.0
+
+toolchain go1.23.5
 
 require (
 	github.com/benoitkugler/textlayout v0.3.1
